@@ -14,20 +14,35 @@
 (***************************************************************************)
 EXTENDS Naturals, FiniteSets, Sequences
 
-CONSTANTS NSys,      \* ordinary systems 1..NSys, run by the job in this order (one stage each)
-          NTl,       \* thread-local systems
-          MaxCalls   \* length of the caller's call sequence
+CONSTANTS
+  \* @type: Int;
+  NSys,      \* ordinary systems 1..NSys, run by the job in this order (one stage each)
+  \* @type: Int;
+  NTl,       \* thread-local systems
+  \* @type: Int;
+  MaxCalls   \* length of the caller's call sequence
 
-VARIABLES chan,      \* "owned" | "inflight" | "sent"  (sent: in the channel, not yet received)
-          st,        \* system -> "idle" | "run" | "done"   (of the current job)
-          runs,      \* system -> completed runs
-          tlruns,    \* thread-local system -> completed runs
-          call,      \* the caller's call in progress ("none" when between calls)
-          tlpc,      \* thread-local systems already run by the wait() in progress
-          issued,    \* dispatches issued
-          waits,     \* completed wait() calls
-          ncalls,
-          lastRunning  \* result of the last running() call (observation)
+VARIABLES
+  \* @type: Str;
+  chan,      \* "owned" | "inflight" | "sent"  (sent: in the channel, not yet received)
+  \* @type: Int -> Str;
+  st,        \* system -> "idle" | "run" | "done"   (of the current job)
+  \* @type: Int -> Int;
+  runs,      \* system -> completed runs
+  \* @type: Int -> Int;
+  tlruns,    \* thread-local system -> completed runs
+  \* @type: Str;
+  call,      \* the caller's call in progress ("none" when between calls)
+  \* @type: Int;
+  tlpc,      \* thread-local systems already run by the wait() in progress
+  \* @type: Int;
+  issued,    \* dispatches issued
+  \* @type: Int;
+  waits,     \* completed wait() calls
+  \* @type: Int;
+  ncalls,
+  \* @type: Str;
+  lastRunning  \* result of the last running() call (observation)
 vars == <<chan, st, runs, tlruns, call, tlpc, issued, waits, ncalls, lastRunning>>
 
 Sys == 1..NSys
@@ -70,7 +85,7 @@ Fetch(s) == /\ chan = "inflight" /\ st[s] = "idle" /\ \A x \in Sys : x < s => st
             /\ UNCHANGED <<chan, runs, tlruns, call, tlpc, issued, waits, ncalls, lastRunning>>
 Finish(s) == /\ st[s] = "run" /\ st' = [st EXCEPT ![s] = "done"] /\ runs' = [runs EXCEPT ![s] = @ + 1]
              /\ UNCHANGED <<chan, tlruns, call, tlpc, issued, waits, ncalls, lastRunning>>
-Send == /\ chan = "inflight" /\ \A s \in Sys : st[s] = "done" /\ chan' = "sent"
+Send == /\ chan = "inflight" /\ (\A s \in Sys : st[s] = "done") /\ chan' = "sent"
         /\ UNCHANGED <<st, runs, tlruns, call, tlpc, issued, waits, ncalls, lastRunning>>
 
 Next == \/ \E op \in Ops : Begin(op)
